@@ -1913,6 +1913,12 @@ class Executor:
         hs = set(c.text_hash for c in cands)
         if len(hs) == 1:
             return cands[0]
+        # same type name in several modules (common::App / protocol::response::App): the call names the module
+        if selfty and '::' in selfty:
+            mod = re.sub(r'<.*$', '', selfty.strip().lstrip('&')).rsplit('::', 1)[0]
+            sub = [c for c in cands if c.name.startswith(mod + '::<impl') or ('::' + mod + '::<impl') in ('::' + c.name)]
+            if sub and len(set(c.text_hash for c in sub)) == 1:
+                return sub[0]
         return None
 
     def find_def_by_self(self, selfty, meth, nargs, dty):
